@@ -7,7 +7,7 @@
 #ifndef C08_ABS_H
 #define C08_ABS_H
 #define C08_MAXRR  3
-#define C08_MAXREC 4
+#define C08_MAXREC 6
 typedef struct {
   ares_dns_section_t  sect;
   ares_dns_rec_type_t type;
@@ -25,11 +25,15 @@ typedef struct {
   const char         *qname;
   ares_dns_rec_type_t qtype;
   ares_dns_class_t    qclass;
+  size_t              idx; /* position in g_rec */
   int                 destroyed;
   int                 dec_calls;
   unsigned int        dec;
 } arec_t;
-static arec_t        g_rec[C08_MAXREC];
+/* separate objects (not an array of structs): a recorder write through a symbolic record pointer must not turn the
+ * whole table into a symbolically indexed array (every later attribute read would become symbolic) */
+static arec_t        g_rec0, g_rec1, g_rec2, g_rec3, g_rec4, g_rec5;
+static arec_t *const g_rec[C08_MAXREC] = { &g_rec0, &g_rec1, &g_rec2, &g_rec3, &g_rec4, &g_rec5 };
 static size_t        g_nrec;
 static ares_dns_rr_t g_rrh[C08_MAXREC][C08_MAXRR]; /* RR handles */
 
@@ -37,9 +41,10 @@ static arec_t *arec_new(void)
 {
   arec_t *r;
   VP_BOUND(g_nrec < C08_MAXREC, "abstract record table too small");
-  r = &g_rec[g_nrec++];
+  r = g_rec[g_nrec++];
   memset(r, 0, sizeof(*r));
-  r->h = vp_malloc(sizeof(*r->h));
+  r->idx = g_nrec - 1;
+  r->h   = vp_malloc(sizeof(*r->h));
   memset(r->h, 0, sizeof(*r->h));
   return r;
 }
@@ -47,22 +52,24 @@ static arec_t *arec_of(const ares_dns_record_t *h)
 {
   size_t i;
   for (i = 0; i < C08_MAXREC; i++)
-    if (i < g_nrec && g_rec[i].h == h)
-      return &g_rec[i];
+    if (i < g_nrec && g_rec[i]->h == h)
+      return g_rec[i];
   VP_ASSERT(0, "record handle handed to the record API is a live record of this harness");
-  return &g_rec[0];
+  return g_rec[0];
 }
-static const arr_t *arr_of(const ares_dns_rr_t *rr)
+/* RR attributes are kept in the (real) ares_dns_rr_t handle itself, so the accessors need no table search;
+ * call arec_commit() after filling r->rr[]/r->nrr */
+static void arec_commit(arec_t *r)
 {
-  size_t i, k;
-  for (i = 0; i < C08_MAXREC; i++)
-    for (k = 0; k < C08_MAXRR; k++)
-      if (rr == &g_rrh[i][k]) {
-        VP_ASSERT(i < g_nrec && !g_rec[i].destroyed && k < g_rec[i].nrr, "RR handle belongs to a live record");
-        return &g_rec[i].rr[k];
-      }
-  VP_ASSERT(0, "RR handle handed to the record API was returned by it");
-  return &g_rec[0].rr[0];
+  size_t k;
+  for (k = 0; k < C08_MAXRR; k++) {
+    ares_dns_rr_t *h = &g_rrh[r->idx][k];
+    memset(h, 0, sizeof(*h));
+    h->parent        = r->h;
+    h->type          = r->rr[k].type;
+    h->ttl           = r->rr[k].ttl;
+    h->r.soa.minimum = r->rr[k].soa_min;
+  }
 }
 size_t ares_dns_record_rr_cnt(const ares_dns_record_t *dnsrec, ares_dns_section_t sect)
 {
@@ -80,7 +87,7 @@ ares_dns_rr_t *ares_dns_record_rr_get(ares_dns_record_t *dnsrec, ares_dns_sectio
   for (k = 0; k < C08_MAXRR; k++)
     if (k < r->nrr && r->rr[k].sect == sect) {
       if (n == idx)
-        return &g_rrh[r - g_rec][k];
+        return &g_rrh[r->idx][k];
       n++;
     }
   return NULL;
@@ -89,16 +96,14 @@ const ares_dns_rr_t *ares_dns_record_rr_get_const(const ares_dns_record_t *dnsre
 {
   return ares_dns_record_rr_get((ares_dns_record_t *)(size_t)dnsrec, sect, idx);
 }
-ares_dns_rec_type_t ares_dns_rr_get_type(const ares_dns_rr_t *rr) { return rr ? arr_of(rr)->type : 0; }
-unsigned int        ares_dns_rr_get_ttl(const ares_dns_rr_t *rr) { return rr ? arr_of(rr)->ttl : 0; }
+ares_dns_rec_type_t ares_dns_rr_get_type(const ares_dns_rr_t *rr) { return rr ? rr->type : 0; }
+unsigned int        ares_dns_rr_get_ttl(const ares_dns_rr_t *rr) { return rr ? rr->ttl : 0; }
 unsigned int        ares_dns_rr_get_u32(const ares_dns_rr_t *rr, ares_dns_rr_key_t key)
 {
-  const arr_t *a;
   if (rr == NULL)
     return 0;
-  a = arr_of(rr);
-  VP_ASSERT(key == ARES_RR_SOA_MINIMUM && a->type == ARES_REC_TYPE_SOA, "only SOA MINIMUM is read as u32");
-  return a->soa_min;
+  VP_ASSERT(key == ARES_RR_SOA_MINIMUM && rr->type == ARES_REC_TYPE_SOA, "only SOA MINIMUM is read as u32");
+  return rr->r.soa.minimum;
 }
 ares_dns_rcode_t  ares_dns_record_get_rcode(const ares_dns_record_t *r) { return r ? arec_of(r)->rcode : 0; }
 unsigned short    ares_dns_record_get_flags(const ares_dns_record_t *r) { return r ? arec_of(r)->flags : 0; }
